@@ -1,6 +1,7 @@
 """C19 (partial): growth/durability steps in the required order on every path (R-ORDER); on open,
 header-declared sizes are compared with the bytes present (R-GUARD.open); loaders in the C19 files
 never size/index from header fields unchecked (R-ALLOC/R-GUARD with header fields as untrusted)."""
+from vlib import fixtures
 import re
 
 from rules import order, openguard, taint
@@ -19,6 +20,7 @@ def need(fx, fid):
 
 def run(ctx):
     fx = ctx.facts("default")
+    fixtures.run(ctx, ['order', 'taint'])
     R = "R-ORDER"
     f = need(fx, MV + "resize_to_capacity")
     ctx.analysed_fns.add(f.id)
